@@ -5,6 +5,12 @@ import PraatModel.Audio
 
 Everything is about the model `PraatModel/Audio.lean`; times are exact rationals `num/den`,
 samples unbounded `Int`s restricted by `InRange`, recordings of any length.
+
+The time-level theorems (section 4) hold for ALL rational times: a time outside the recording addresses its first / last
+sample boundary (defect C16-2, /repo 300c9d2: `sampleIndex_nearest`, `sampleIndex_nonpos`, `sampleIndex_beyond`), and a
+time range that ends before it starts is rejected with `ArgumentError` (defect C16-3, /repo 0a07868: `reversed_rejected`,
+`query_reversed_rejected`).  No window hypothesis (`0 ≤ t ≤ duration`) is left; `¬ e < s` in a statement is the condition
+under which the call returns, its complement being `reversed_rejected`.
 -/
 open Audio
 namespace C16
